@@ -171,6 +171,8 @@ pub struct Fail {
 
 #[derive(Debug, Default, Clone)]
 pub struct Verdict {
+    /// set when the harness itself failed (not the code under test): reported as inconclusive, never as a violation
+    pub harness_error: Option<String>,
     pub fails: Vec<Fail>,
     pub nontrivial: bool,
     pub classes: Vec<String>,
@@ -393,6 +395,13 @@ impl Run {
         F: Fn(&C) -> Verdict,
     {
         let v = run_guarded(sub, &self.id, case, f);
+        if let Some(h) = &v.harness_error {
+            let mut g = self.inconclusive.lock().unwrap();
+            if g.len() < 5 {
+                g.push(format!("{sub}: harness failure: {}", trunc(h, 300)));
+            }
+            return true;
+        }
         self.record_case(sub, case, &v);
         let unknown = self.filter_known(&v, true);
         if let Some(first) = unknown.first() {
@@ -491,6 +500,13 @@ impl Run {
         let last_fail: RefCell<Option<Fail>> = RefCell::new(None);
         let res = runner.run(&strategy, |case| {
             let v = run_guarded(sub, &self.id, &case, f);
+            if let Some(h) = &v.harness_error {
+                let mut g = self.inconclusive.lock().unwrap();
+                if g.len() < 5 {
+                    g.push(format!("{sub}: harness failure: {}", trunc(h, 300)));
+                }
+                return Ok(());
+            }
             let counting = !failed.get();
             let unknown = self.filter_known(&v, counting);
             if counting {
@@ -664,12 +680,47 @@ impl Run {
     }
 }
 
+/// Attribute panics of background tasks seen since `since` to a verdict: code under test → failure with the
+/// location as signature; harness code → harness error (inconclusive).
+pub fn attribute_task_panics(v: &mut Verdict, id: &str, since: usize) {
+    for p in panics_since(since) {
+        if is_harness_panic(&p) {
+            if v.harness_error.is_none() {
+                v.harness_error = Some(p);
+            }
+            continue;
+        }
+        let loc = p.rsplit(" @ ").next().unwrap_or("").rsplit("/src/").next().unwrap_or("").split(':').next().unwrap_or("").to_string();
+        v.fail(format!("{id}/task/panic@{loc}"), p);
+        break;
+    }
+}
+
+/// A panic raised by harness code (its location is a path relative to the harness crate, `src/...`; code under test
+/// and dependencies are compiled with absolute paths).
+pub fn is_harness_panic(p: &str) -> bool {
+    p.rsplit(" @ ").next().map(|l| l.starts_with("src/")).unwrap_or(false)
+}
+
 fn run_guarded<C, F>(sub: &str, id: &str, case: &C, f: &F) -> Verdict
 where
     F: Fn(&C) -> Verdict,
 {
     match no_panic(|| f(case)) {
-        Ok(v) => v,
+        Ok(mut v) => {
+            // panics recorded from background tasks of the case
+            let (harness, real): (Vec<Fail>, Vec<Fail>) = v.fails.drain(..).partition(|f| f.sig.ends_with("/task/panicked") && is_harness_panic(&f.msg));
+            v.fails = real;
+            if let Some(h) = harness.into_iter().next() {
+                v.harness_error = Some(h.msg);
+            }
+            v
+        }
+        Err(p) if is_harness_panic(&p) => {
+            let mut v = Verdict::new();
+            v.harness_error = Some(p);
+            v
+        }
         Err(p) => {
             let mut v = Verdict::new();
             // panic signature: location only (stable), not the message payload
